@@ -1972,14 +1972,11 @@ class EdgeQLSourceGenerator(codegen.SourceGenerator):
 
         if self.sdlmode and node.declared_overloaded:
             keywords.append('OVERLOADED')
-            if node.is_required:
-                keywords.append('REQUIRED')
-        else:
-            if node.is_required is True:
-                keywords.append("REQUIRED")
-            elif node.is_required is False:
-                keywords.append("OPTIONAL")
-            # else: node.is_required is None
+        if node.is_required is True:
+            keywords.append("REQUIRED")
+        elif node.is_required is False:
+            keywords.append("OPTIONAL")
+        # else: node.is_required is None
         if node.cardinality:
             keywords.append(node.cardinality.as_ptr_qual().upper())
         if kind:
